@@ -42,6 +42,9 @@ pub fn alphabet() -> Vec<BOp> {
         BOp::SelectByName(0),
         BOp::SelectByName(1),
         BOp::FindReturnBlocks,
+        BOp::Import(0),
+        BOp::Import(1),
+        BOp::ExtInstVia,
     ]
 }
 
